@@ -564,6 +564,7 @@ class World(OpsMixin, OracleMixin):
                 t.req = req
                 req.tids.append(tid)
         self.ev("cb_enter", pr.idx, tid, kind)
+        t.cb_task = asyncio.current_task()
         t.events.append(kind + "cb_enter")
         self.on_cb_enter(pr, req, t, kind)
         if kind == "c":
